@@ -292,6 +292,10 @@ class BodyFlow:
                         continue
                     if _meth(c) in spec.preserving and self._is_container_method(c):
                         continue
+                    if self._copies_clean_field(c, ai):
+                        self._note(key, 'clean', line, 'whole-container copy of the same field of a clean argument')
+                        st[key] = C
+                        continue
                     st[key] = D
                     self._note(key, 'dirty', line, '&mut into invariant field passed to %s' % gen)
                 elif 'move' in a and ('_%d' % l) in self.owned:
@@ -314,6 +318,28 @@ class BodyFlow:
         elif t['k'] == 'return':
             rets = dict(st)
         return st, rets
+
+    def _copies_clean_field(self, c, ai):
+        """Clone::clone_from(&mut self.field, &other.field) with `other` a by-reference parameter of the same ADT:
+        values received from outside are clean (induction), so the copy of its invariant field is clean"""
+        gen = c.generic or ''
+        if not gen.endswith('Clone::clone_from') or ai != 0 or len(c.args) != 2:
+            return False
+        try:
+            from e5_locks import resolve_place
+            src = op_place(c.args[1])
+            if src is None:
+                return False
+            r = resolve_place(self.b, src, 0, False)
+        except Exception:
+            return False
+        m = re.match(r'^&\(\*_(\d+)\)\.(\w+)$', r.strip())
+        if not m:
+            return False
+        l, fld = int(m.group(1)), m.group(2)
+        short = self.spec.adt.split('::')[-1]
+        return 1 <= l <= self.b.arg_count and fld in self.spec.fields and short in self.b.locals[l]['ty'] and self.b.locals[l]['ty'].startswith('&') \
+            and not self.b.locals[l]['ty'].startswith('&mut')
 
     def _is_container_method(self, c):
         g = c.generic or ''
